@@ -57,6 +57,7 @@ CHECKS = {
         "assumptions": ["delegate futures are plain stdlib futures driven by the environment; chains longer than one level are covered by the pure law (vchain_compose) and the whole-stack differential of C01"],
     },
     "C14": {
+        "extra_props": ["Props/Comb_F.v"],
         "modules": ["p_c14"],
         "gen_lemmas": ["or_update_spec", "and_update_spec"],
         "rule": "seeded scenarios: f_or/f_and over 2-5 input positions drawn from 2-5 environment futures (duplicates, inputs already done, "
@@ -67,6 +68,7 @@ CHECKS = {
         "assumptions": ["inputs are plain stdlib futures driven by the environment; inputs that were already done at call time count as finishing at registration, in argument order"],
     },
     "C15": {
+        "extra_props": ["Props/Comb_F.v"],
         "modules": ["p_c15"],
         "gen_lemmas": ["zip_update_spec", "tuple_classes_20"],
         "rule": "as C14 for f_zip (positions, duplicates, first failure / first cancellation, output cancel fan-out), replayed on Model/Comb.v; "
@@ -160,6 +162,7 @@ CHECKS = {
         "assumptions": ["PARTIAL: GC/finalisation timing is CPython's; the worker-loop protocol is proved on Model/Refs.v"],
     },
     "C02": {
+        "extra_props": ["Props/Comb_F.v"],
         "modules": ["p_c02m", "p_c02c"],
         "rule": "library futures: the C13 scenario family (MapFuture/FlatMapFuture over environment futures; done-callbacks that may raise, "
                 "added before/after completion; 0-2 cancels) plus 0-3 threads blocked in result()/exception()/wait()/as_completed() with a "
